@@ -102,6 +102,20 @@ static const char *stub_filename(sqfs_istream_t *strm)
 	return "describe.txt";
 }
 
+#ifdef VERIF_REPLAY
+/* native replay only: handle_line() and fstree_from_file() are never reached
+ * (the probe stops the reader) but their callees must exist for the link */
+int canonicalize_name(char *f) { (void)f; return -1; }
+int parse_uint_oct(const char *in, size_t len, size_t *diff, sqfs_u64 vmin, sqfs_u64 vmax, sqfs_u64 *out) { (void)in; (void)len; (void)diff; (void)vmin; (void)vmax; (void)out; return -1; }
+int parse_uint(const char *in, size_t len, size_t *diff, sqfs_u64 vmin, sqfs_u64 vmax, sqfs_u64 *out) { (void)in; (void)len; (void)diff; (void)vmin; (void)vmax; (void)out; return -1; }
+void split_line_remove_front(split_line_t *sep, size_t count) { (void)sep; (void)count; }
+void *alloc_flex(size_t a, size_t b, size_t c) { (void)a; (void)b; (void)c; return NULL; }
+tree_node_t *fstree_add_generic(fstree_t *fs, const sqfs_dir_entry_t *ent, const char *extra) { (void)fs; (void)ent; (void)extra; return NULL; }
+int glob_files(fstree_t *fs, const char *filename, size_t line_num, const sqfs_dir_entry_t *ent, const char *basepath, unsigned int glob_flags, split_line_t *extra) { (void)fs; (void)filename; (void)line_num; (void)ent; (void)basepath; (void)glob_flags; (void)extra; return -1; }
+int sqfs_istream_open_file(sqfs_istream_t **out, const char *path, sqfs_u32 flags) { (void)out; (void)path; (void)flags; return -1; }
+void sqfs_perror(const char *file, const char *action, int error_code) { (void)file; (void)action; (void)error_code; }
+#endif
+
 #include "bin/gensquashfs/src/fstree_from_file.c"
 
 void harness(void)
